@@ -27,7 +27,7 @@ struct AtomicCounter : CounterBase {
   }
 
   // Dangerous! Use only to sync with release with acquire or with relaxed if synchronization is not needed
-  [[nodiscard]] YACLIB_INLINE std::size_t Get(std::memory_order order = std::memory_order_relaxed) const noexcept {
+  [[nodiscard]] YACLIB_INLINE std::size_t Get(std::memory_order order = std::memory_order_acquire) const noexcept {
     return count.load(order);
   }
 
